@@ -456,8 +456,12 @@ func (rs *s3ClientStorage) GetObject(ctx context.Context, bucketName storage.Buc
 		ranges = []storage.ByteRange{{Start: nil, End: nil}}
 	}
 
-	// First, get object metadata
-	object, err := rs.HeadObject(ctx, bucketName, key, nil)
+	// First, get object metadata of the version that is going to be read
+	var headObjectOpts *storage.HeadObjectOptions
+	if opts != nil && opts.VersionID != nil {
+		headObjectOpts = &storage.HeadObjectOptions{VersionID: opts.VersionID}
+	}
+	object, err := rs.HeadObject(ctx, bucketName, key, headObjectOpts)
 	if err != nil {
 		return nil, nil, err
 	}
